@@ -9,7 +9,12 @@
 // configurations of {receiver, operands} that the parameter types allow are
 // enumerated as well, both worlds built with the same configuration. This is a
 // pure generic-vs-concrete differential; whether an aliased call computes the
-// alias-free result is C08's question.
+// alias-free result is C08's question. The scalar operand of a vector-scalar /
+// matrix-scalar pair is also taken from inside the receiver or a container
+// operand (r.MDIVS(a, r.AT(0,0))). After an agreeing call the program continues
+// in both worlds with an in-place update of every object and everything is
+// compared again (followup.go): the two variants must also leave the same
+// (in)dependence between result and operands.
 package main
 
 import (
@@ -186,7 +191,7 @@ func findPairs(p proto) []pairT {
 /* case description ---------------------------------------------------------- */
 
 type Obj struct {
-	K    string `json:"k"` // s v m f i
+	K    string `json:"k"` // s v m f i; e = the scalar that is element I (row-major) of the container in slot Of
 	T    string `json:"t,omitempty"`
 	Sp   bool   `json:"sparse,omitempty"`
 	Rows int    `json:"rows,omitempty"`
@@ -195,6 +200,7 @@ type Obj struct {
 	S    *SSpec `json:"s,omitempty"`
 	F    string `json:"f,omitempty"`
 	I    int    `json:"i,omitempty"`
+	Of   int    `json:"of,omitempty"` // K=="e": slot of the container (0 = receiver, k = argument k-1)
 }
 
 type Case struct {
@@ -239,6 +245,21 @@ func aliasString(alias []int) string {
 // checkAlias: an alias vector is well formed when it covers every slot and
 // only joins slots with identical specifications.
 func checkAlias(cs Case) error {
+	for k, a := range cs.A {
+		if a.K != "e" {
+			continue
+		}
+		if a.Of < 0 || a.Of > len(cs.A) || a.Of == k+1 {
+			return fmt.Errorf("argument %d: element of slot %d", k, a.Of)
+		}
+		c := cs.R
+		if a.Of > 0 {
+			c = cs.A[a.Of-1]
+		}
+		if (c.K != "v" && c.K != "m") || a.I < 0 || a.I >= len(c.E) {
+			return fmt.Errorf("argument %d: element %d of slot %d does not exist", k, a.I, a.Of)
+		}
+	}
 	if cs.Alias == nil {
 		return nil
 	}
@@ -249,7 +270,7 @@ func checkAlias(cs Case) error {
 	for i := range specs {
 		for j := 0; j < i; j++ {
 			if cs.Alias[i] == cs.Alias[j] {
-				if specs[i].K == "f" || specs[i].K == "i" || !reflect.DeepEqual(specs[i], specs[j]) {
+				if specs[i].K == "f" || specs[i].K == "i" || specs[i].K == "e" || !reflect.DeepEqual(specs[i], specs[j]) {
 					return fmt.Errorf("alias joins slots %d and %d with different specifications", j, i)
 				}
 			}
@@ -264,6 +285,9 @@ func buildWorld(cs Case) (any, []any) {
 	r := build(cs.R)
 	as := make([]any, len(cs.A))
 	for i, a := range cs.A {
+		if a.K == "e" {
+			continue // second pass
+		}
 		if cs.Alias != nil {
 			if cs.Alias[i+1] == cs.Alias[0] {
 				as[i] = r
@@ -282,7 +306,30 @@ func buildWorld(cs Case) (any, []any) {
 		}
 		as[i] = build(a)
 	}
+	// scalar operands that are elements of the receiver / of a container operand
+	for i, a := range cs.A {
+		if a.K == "e" {
+			if a.Of == 0 {
+				as[i] = elementOf(r, a.I)
+			} else {
+				as[i] = elementOf(as[a.Of-1], a.I)
+			}
+		}
+	}
 	return r, as
+}
+
+func elemArgs(cs Case) []bool {
+	var out []bool
+	for k, a := range cs.A {
+		if a.K == "e" {
+			if out == nil {
+				out = make([]bool, len(cs.A))
+			}
+			out[k] = true
+		}
+	}
+	return out
 }
 
 func build(o Obj) any {
@@ -290,9 +337,9 @@ func build(o Obj) any {
 	case "s":
 		return mkScalar(elemByName(o.T), *o.S)
 	case "v":
-		return mkVector(elemByName(o.T), o.Sp, o.E)
+		return mkVectorX(elemByName(o.T), o.Sp, o.E)
 	case "m":
-		return mkMatrix(elemByName(o.T), o.Sp, o.Rows, o.Cols, o.E)
+		return mkMatrixX(elemByName(o.T), o.Sp, o.Rows, o.Cols, o.E)
 	case "f":
 		return fval(o.F)
 	case "i":
@@ -395,9 +442,12 @@ type observation struct {
 	panicked string // "" or class
 	pmsg     string
 	ret      string
-	state    string   // receiver + args after the call
-	relems   []string // receiver, element by element
-	probe    string   // receiver + args after writing through the return value
+	state    string          // receiver + args after the call
+	relems   []string        // receiver, element by element
+	probe    string          // receiver + args after writing through the return value
+	after    string          // receiver + args + returned objects after the in-place update of every object
+	nobj     int             // objects updated by the follow-up
+	describe func() []string // readable form of after, slot by slot
 }
 
 // writeThrough stores 9 into every element of a returned scalar/container so
@@ -441,7 +491,9 @@ func elemsOf(x any) (out []string) {
 	return
 }
 
-func runVariant(m reflect.Method, recv any, args []any) (o observation) {
+// runVariant calls m and observes. elemArg != nil / follow: the program continues
+// with the in-place update of every object (followUp).
+func runVariant(m reflect.Method, recv any, args []any, follow bool, elemArg []bool) (o observation) {
 	in := make([]reflect.Value, 0, len(args)+1)
 	in = append(in, reflect.ValueOf(recv))
 	for _, a := range args {
@@ -502,6 +554,9 @@ func runVariant(m reflect.Method, recv any, args []any) (o observation) {
 	if wrote {
 		o.probe = stateOf()
 	}
+	if follow {
+		o.after, o.nobj, o.describe = followUp(recv, args, elemArg, rets)
+	}
 	return
 }
 
@@ -551,6 +606,8 @@ func codeCat(o Obj, i int) string {
 		return "0"
 	case eJunk:
 		return "junk"
+	case eHess:
+		return "nz+hess"
 	}
 	return "nz"
 }
@@ -570,10 +627,12 @@ func elementClass(cs Case, i int) string {
 			}
 		case "s":
 			sc = append(sc, string(names[k])+":"+signClass(a.S.V))
+		case "e":
+			sc = append(sc, string(names[k])+":elem-of-"+slotNames[a.Of])
 		}
 	}
 	var o []string
-	for _, k := range []string{"absent", "stored0", "0", "0+deriv", "nz", "junk"} {
+	for _, k := range []string{"absent", "stored0", "0", "0+deriv", "nz", "nz+hess", "junk"} {
 		if ops[k] {
 			o = append(o, k)
 		}
@@ -593,6 +652,8 @@ func exoticClass(cs Case) string {
 			switch c := codeCat(o, i); c {
 			case "absent", "stored0", "0+deriv":
 				has[c] = true
+			case "nz+hess":
+				has["order2"] = true
 			}
 		}
 	}
@@ -601,7 +662,7 @@ func exoticClass(cs Case) string {
 		scan(a)
 	}
 	var f []string
-	for _, k := range []string{"absent", "stored0", "0+deriv"} {
+	for _, k := range []string{"absent", "stored0", "0+deriv", "order2"} {
 		if has[k] {
 			f = append(f, k)
 		}
@@ -658,12 +719,16 @@ func methodsOf(cs Case) (gen, con reflect.Method, recvT reflect.Type, ok bool) {
 	return
 }
 
+// followObjs: objects updated by the follow-up of the last agreeing case (counter).
+var followObjs int
+
 // runCase returns ("","") if both variants agree.
 func runCase(gen, con reflect.Method, cs Case) (key, what, outcome string) {
 	r1, a1 := buildWorld(cs)
 	r2, a2 := buildWorld(cs)
-	og := runVariant(gen, r1, a1)
-	oc := runVariant(con, r2, a2)
+	ea := elemArgs(cs)
+	og := runVariant(gen, r1, a1, true, ea)
+	oc := runVariant(con, r2, a2, true, ea)
 	diff, detail, class := "", "", ""
 	switch {
 	case og.panicked != "" && oc.panicked != "":
@@ -703,11 +768,20 @@ func runCase(gen, con reflect.Method, cs Case) (key, what, outcome string) {
 		diff = "storage-sharing-of-return-value"
 		class = exoticClass(cs)
 		detail = fmt.Sprintf("after writing through the value returned by %s: %s; by %s: %s", cs.Gen, og.probe, cs.Con, oc.probe)
+	case og.after != oc.after:
+		// equal right after the call, different once the program continues: one
+		// variant's result shares storage with an operand (or the other way round)
+		diff = "independence-after-update"
+		dg, dc := og.describe(), oc.describe()
+		// key by the objects that are coupled in one variant only, not by operand values
+		class = "differs:" + coupledSlots(dg, dc, len(cs.A))
+		detail = fmt.Sprintf("every object updated in place (distinct numbers per object/element/slot) after %s: %s; after %s: %s", cs.Gen, strings.Join(dg, " | "), cs.Con, strings.Join(dc, " | "))
 	default:
+		followObjs = og.nobj
 		return "", "", "agree"
 	}
 	tn := strings.TrimPrefix(strings.TrimPrefix(cs.Type, "*"), "autodiff.")
-	if al := aliasString(cs.Alias); al != "" {
+	if al := aliasDesc(cs); al != "" {
 		tn += "|alias:" + al
 	}
 	key = fmt.Sprintf("%s/%s|%s|%s|%s", cs.Gen, cs.Con, tn, class, diff)
@@ -818,6 +892,10 @@ func (x *explorer) dataAlphabet(f family, cells int, pos int) []int {
 	}
 	if f.Elem.Real && cells <= limD {
 		a = append(a, eDer0)
+	}
+	// second-order element (Hessian storage) in the smallest containers, both tiers
+	if f.Elem.Real && cells <= 2 {
+		a = append(a, eHess)
 	}
 	return a
 }
@@ -994,7 +1072,15 @@ func (x *explorer) emit(pr pairT, cs Case) {
 	c := x.c
 	c.Eval(1)
 	key, what, outcome := runCase(pr.gen, pr.con, cs)
-	if al := aliasString(cs.Alias); al != "" {
+	if outcome == "agree" {
+		// both variants returned normally and agreed: the follow-up was compared
+		c.Count("followup:cases_continued", 1)
+		c.Count("followup:objects_updated_in_place", int64(followObjs))
+	}
+	if er := elemRefString(cs); er != "" {
+		c.Count("elem-alias:"+pr.fam.Kind+":"+pr.con.Name+":"+er, 1)
+	}
+	if al := aliasDesc(cs); al != "" {
 		c.Outcome(pr.fam.Kind + ":aliased:" + outcome)
 		c.Count("aliased:"+pr.fam.Kind+":"+pr.con.Name+":"+al, 1)
 	} else {
@@ -1261,7 +1347,7 @@ func (x *explorer) exploreShape(pr pairT, base Case, alt bool, rshape shape, csh
 	probe.R = mkObj(fam, rshape, fill(cells(fam, rshape), eOne))
 	probe.A = append([]Obj(nil), args...)
 	r0, a0 := buildWorld(probe)
-	if o := runVariant(pr.gen, r0, a0); o.panicked != "" {
+	if o := runVariant(pr.gen, r0, a0, false, nil); o.panicked != "" {
 		x.emit(pr, probe)
 		return
 	}
@@ -1334,6 +1420,33 @@ func (x *explorer) exploreShape(pr pairT, base Case, alt bool, rshape shape, csh
 						cur[k] = Obj{K: "s", T: e.Name, S: &sp}
 						recP(j + 1)
 					}
+					// the scalar operand IS an element of the receiver or of a container
+					// operand (r.MDIVS(a, r.AT(0,0))): every position of every distinct
+					// container object whose elements have the parameter's type
+					pt := pr.con.Type.In(k + 1)
+					for slot := 0; slot <= len(cont); slot++ {
+						dup := false
+						for q := 0; q < slot; q++ {
+							if blocks[q] == blocks[slot] {
+								dup = true
+							}
+						}
+						if dup {
+							continue
+						}
+						sf, n, of := fam, cells(fam, rshape), 0
+						if slot > 0 {
+							sf = famOfParam(cont[slot-1], alt)
+							n, of = cells(sf, cshapes[slot-1]), cont[slot-1]+1
+						}
+						if elemTypeOf(sf) != pt {
+							continue
+						}
+						for i := 0; i < n; i++ {
+							cur[k] = Obj{K: "e", T: e.Name, Of: of, I: i}
+							recP(j + 1)
+						}
+					}
 				}
 				recP(0)
 				return
@@ -1403,9 +1516,11 @@ func main() {
 		ID:    "C09",
 		Level: "exploration",
 		Rule: "pairs (M, UPPER(M)) found by reflection on all 9 scalar, 18 vector and 18 matrix types (+14 immutable types scanned for twins); per pair every tuple of the operand lattices " +
-			"(scalars: boundary grid incl. +-Inf/NaN x jet order 0/1/2 x receiver prior sign/jet; containers: all shape tuples 0..D, every element pattern over {0/absent,1,-2,stored-zero,zero-with-derivative}, receiver prior {absent,stored-zero,junk}); " +
+			"(scalars: boundary grid incl. +-Inf/NaN x jet order 0/1/2 x receiver prior sign/jet; containers: all shape tuples 0..D, every element pattern over {0/absent,1,-2,stored-zero,zero-with-derivative,second-order element (order 2, N=1; Real containers of <= 2 cells)}, receiver prior {absent,stored-zero,junk}); " +
 			"additionally every alias configuration of {receiver, operands}: all set partitions in which one object is passed in several slots of the same concrete type (r=a, r=b, a=b, r=a=b; interface-typed operands holding the receiver's type), " +
-			"built identically in both worlds, shapes per block 0..D, contents of an aliased block from the operand lattice {0/absent,1,-2,stored-zero,zero-with-derivative} (scalars: the full operand grid); " +
+			"built identically in both worlds, shapes per block 0..D, contents of an aliased block from the operand lattice {0/absent,1,-2,stored-zero,zero-with-derivative,second-order} (scalars: the full operand grid); " +
+			"for every vector-scalar and matrix-scalar pair the scalar operand is, besides a separate object, element i of the receiver and element i of every distinct container operand (taken through At(i), so a stored entry in sparse containers), every position i, combined with every receiver/operand alias configuration; " +
+			"every case in which both variants return normally and agree is CONTINUED in both worlds: each distinct object (operands, then receiver, then returned scalars/containers) is updated in place through SetFloat64/SetDerivative/SetHessian on every element with numbers distinct per object, element and derivative slot, then receiver, operands and returned objects are observed again (sparse containers incl. iterator) - a result coupled to an operand's storage in one variant only differs there; " +
 			"a case is non-trivial when at least one variant returns normally (both-panic shape/domain cases are counted separately as outcomes)",
 		Assume: []string{
 			"the sign of a floating-point zero is not part of the observable state (values compare with ==, NaN equals NaN)",
@@ -1413,7 +1528,9 @@ func main() {
 			"operands are built twice from the same specification instead of being cloned (does not depend on Clone)",
 			"aliased calls are compared generic against concrete only; whether the aliased result equals the alias-free result is property C08",
 			"the temporary operand of LogAdd/LogSub (LOGADD/LOGSUB) is scratch space and always a dedicated object",
-			"aliasing means passing the same object; overlapping views and a scalar operand that is an element of the receiver are not enumerated here (C08, C10)",
+			"aliasing means passing the same object, or a scalar operand that is an element of the receiver / of a container operand; overlapping views are not enumerated here (C08, C10)",
+			"a scalar operand that is a container element is compared generic against concrete only (both may differ from the call with a separate scalar: C08)",
+			"the follow-up update uses the public setters, which write in place (no reallocation: N and order are unchanged); storage shared by BOTH variants alike (At/AT, Slice/SLICE, Row/ROW views) is not a difference",
 		},
 		Run: run,
 		Replay: func(c *vf.Ctx, raw json.RawMessage) {
